@@ -50,7 +50,7 @@ func (g *c01Gen) genTopFunc(name string) *c01Func {
 		f.params = append(f.params, p)
 	}
 
-	shape := g.pick(8)
+	shape := g.pick(9)
 	rk := c01Ty{sort: 'i', kind: g.kind()}
 
 	switch shape {
@@ -91,6 +91,9 @@ func (g *c01Gen) genTopFunc(name string) *c01Func {
 	case 7: // closure factory
 		f.params = []*c01Var{g.newVar(c01Ty{sort: 'i', kind: "int"})}
 		g.resultVars(f, c01Ty{sort: 'F', sig: 0})
+	case 8: // scanner: one unnamed result, returns from inside a range loop over a local slice
+		g.resultVars(f, rk)
+		f.scanner = true
 	}
 
 	s, pre := g.scopeFor(f)
@@ -138,7 +141,36 @@ func (g *c01Gen) genTopFunc(name string) *c01Func {
 		return f
 	}
 
-	stmts = append(stmts, g.genBlock(s, 2+g.pick(4)).args...)
+	if f.scanner {
+		els := []*c01Node{}
+		for i := 0; i < 2+g.pick(3); i++ {
+			els = append(els, g.genInt(s, "int", 1))
+		}
+
+		sl := g.declare(s, c01Ty{sort: 'L'}, &c01Node{op: "slicelit", args: els}, false)
+		stmts = append(stmts, sl)
+		stmts = append(stmts, g.genBlock(s, g.pick(3)).args...)
+		guarded := func(c *c01Scope) []*c01Node {
+			cond := g.genBool(c, 1)
+			if g.chance(0.4) {
+				// a guard that holds (and is not a constant)
+				x := g.nonConstInt(c, "int")
+				cond = &c01Node{op: "bin", bop: "le", args: []*c01Node{x, x}}
+			}
+
+			return []*c01Node{{op: "ite", args: []*c01Node{cond, c01Seq(g.genReturn(c)), c01Seq()}}}
+		}
+
+		if g.chance(0.3) {
+			// the return sits in a range loop inside a range loop
+			stmts = append(stmts, g.genRangeWith(s, sl.x, func(c *c01Scope) []*c01Node { return g.genRangeWith(c, sl.x, guarded) })...)
+		} else {
+			stmts = append(stmts, g.genRangeWith(s, sl.x, guarded)...)
+		}
+		stmts = append(stmts, g.genBlock(s, g.pick(2)).args...)
+	} else {
+		stmts = append(stmts, g.genBlock(s, 2+g.pick(4)).args...)
+	}
 
 	switch {
 	case shape == 7:
@@ -227,6 +259,27 @@ func c01Generate(r *rand.Rand, hot string) *c01Program {
 		stmts = append(stmts, &c01Node{op: "deferprintln", args: []*c01Node{{op: "slit", s: "bye"}}})
 	}
 
+	hasScanner := false
+	for _, f := range g.callable {
+		hasScanner = hasScanner || f.scanner
+	}
+
+	if hasScanner || g.chance(0.4) {
+		els := []*c01Node{}
+		for i := 0; i < 2+g.pick(3); i++ {
+			els = append(els, g.genInt(s, "int", 1))
+		}
+
+		sl := g.declare(s, c01Ty{sort: 'L'}, &c01Node{op: "slicelit", args: els}, false)
+		stmts = append(stmts, sl)
+
+		if hasScanner && g.chance(0.7) {
+			// a range loop whose body ends with a call of a function that returns from inside a range loop
+			stmts = append(stmts, g.genBlock(s, g.pick(4)).args...)
+			stmts = append(stmts, g.genRangeWith(s, sl.x, g.callScanner)...)
+		}
+	}
+
 	stmts = append(stmts, g.genBlock(s, 8+g.pick(8)).args...)
 
 	if hot == c01HotFaultDefer {
@@ -247,9 +300,131 @@ func c01Generate(r *rand.Rand, hot string) *c01Program {
 		}
 	}
 
+	c01FixEvalOrder(g.prog)
 	c01Features(g.prog)
 
 	return g.prog
+}
+
+// c01FixEvalOrder: Go orders the function calls of one expression statement, but NOT an operation
+// that may fault (÷ or % by a non-constant, an index that is not a literal) against a call that
+// follows it in the same statement — `(a % b) + f()` runs f() first under gc.  Such a statement has
+// no defined reference behaviour; wherever one was generated the faultable operations of that
+// statement are made fault-free (divisor `(d*0 + 1)`, literal index).
+func c01FixEvalOrder(g *c01Program) {
+	faultable := func(n *c01Node) bool {
+		switch {
+		case n.op == "bin" && (n.bop == "div" || n.bop == "mod"):
+			d := n.args[1]
+			if d.op == "conv" {
+				d = d.args[0]
+			}
+
+			return !(d.op == "lit" && d.lit != "0")
+		case n.op == "index":
+			return !(n.args[1].op == "lit" && (n.args[1].lit == "0" || n.args[1].lit == "1")) // slices have >= 2 elements
+		}
+
+		return false
+	}
+
+	// check: (a faultable operation occurs, a call occurs, a faultable operation is followed by a call
+	// that does not contain it)
+	var check func(n *c01Node) (bool, bool, bool)
+
+	check = func(n *c01Node) (hasFault, hasCall, bad bool) {
+		if n.op == "fnlit" {
+			return false, false, false
+		}
+
+		for _, a := range n.args {
+			if a == nil {
+				continue
+			}
+
+			f, c, b := check(a)
+			bad = bad || b || (hasFault && c)
+			hasFault, hasCall = hasFault || f, hasCall || c
+		}
+
+		return hasFault || faultable(n), hasCall || n.op == "call" || n.op == "callv", bad
+	}
+
+	var calm func(n *c01Node)
+
+	calm = func(n *c01Node) {
+		if n.op == "fnlit" {
+			return
+		}
+
+		if faultable(n) {
+			if n.op == "index" {
+				n.args[1] = c01Lit(0)
+			} else {
+				n.args[1] = &c01Node{op: "bin", bop: "add", args: []*c01Node{{op: "bin", bop: "mul", args: []*c01Node{n.args[1], c01Lit(0)}}, c01Lit(1)}}
+			}
+		}
+
+		for _, a := range n.args {
+			if a != nil {
+				calm(a)
+			}
+		}
+	}
+
+	root := func(n *c01Node) {
+		if _, _, bad := check(n); bad {
+			calm(n)
+			g.feats["eval-order-fixed"] = true
+		}
+	}
+
+	var stmt func(n *c01Node)
+
+	stmt = func(n *c01Node) {
+		if n == nil {
+			return
+		}
+
+		switch n.op {
+		case "seq":
+			for _, a := range n.args {
+				stmt(a)
+			}
+		case "ite":
+			root(n.args[0])
+			stmt(n.args[1])
+			stmt(n.args[2])
+		case "loop":
+			stmt(n.args[0])
+			root(n.args[1])
+			stmt(n.args[2])
+			stmt(n.args[3])
+		case "range":
+			root(n.args[0])
+			stmt(n.args[1])
+		case "switch":
+			root(n.args[0])
+
+			for _, a := range n.args[1:] {
+				stmt(a)
+			}
+		case "mapget":
+			root(&c01Node{op: "pair", args: n.args[:2]})
+			stmt(n.args[2])
+			stmt(n.args[3])
+		case "recov":
+			stmt(n.args[0])
+			stmt(n.args[1])
+		case "brk", "cont":
+		default:
+			root(n)
+		}
+	}
+
+	for _, f := range g.funcs {
+		stmt(f.body)
+	}
 }
 
 // c01Features computes the static construct classes of a program (used to classify oracle failures).
@@ -268,6 +443,94 @@ func c01Features(g *c01Program) {
 	}
 
 	fnHasDefer := map[*c01Func]bool{}
+
+	// leaks: functions that return from inside a range loop, and the functions that call one
+	leaks := map[*c01Func]bool{}
+
+	var scan func(n *c01Node, inRange, inLoop bool, visit func(n *c01Node, inRange, inLoop bool))
+
+	scan = func(n *c01Node, inRange, inLoop bool, visit func(n *c01Node, inRange, inLoop bool)) {
+		visit(n, inRange, inLoop)
+
+		for i, a := range n.args {
+			if a != nil {
+				scan(a, inRange || (n.op == "range" && i == 1), inLoop || (n.op == "range" && i == 1) || (n.op == "loop" && i == 3), visit)
+			}
+		}
+	}
+
+	for changed := true; changed; {
+		changed = false
+
+		for _, f := range g.funcs {
+			scan(f.body, false, false, func(n *c01Node, inRange, _ bool) {
+				if !leaks[f] && ((n.op == "ret" && inRange) || ((n.op == "call" || n.op == "deferfn") && leaks[n.f])) {
+					leaks[f], changed = true, true
+				}
+			})
+		}
+	}
+
+	// a return inside a range loop that is itself inside a range loop
+	var nest func(n *c01Node, depth int)
+
+	nest = func(n *c01Node, depth int) {
+		if n.op == "ret" && depth >= 2 {
+			g.feats[c01ClsNestedRangeRet] = true
+		}
+
+		for i, a := range n.args {
+			if a != nil {
+				d := depth
+				if n.op == "range" && i == 1 {
+					d++
+				}
+
+				nest(a, d)
+			}
+		}
+	}
+
+	for _, f := range g.funcs {
+		nest(f.body, 0)
+	}
+
+	// variables that some declaration hides, and the variables function literals mention
+	hidden, inLits := map[*c01Var]bool{}, map[*c01Var]bool{}
+
+	for _, f := range g.funcs {
+		scan(f.body, false, false, func(n *c01Node, _, _ bool) {
+			if n.op == "decl" && n.x.alias != nil {
+				hidden[n.x.alias] = true
+			}
+		})
+
+		if f.isLit {
+			c01Mentions(f.body, inLits)
+		}
+	}
+
+	for v := range inLits {
+		if hidden[v] || (v.alias != nil && hidden[v.alias]) {
+			g.feats[c01ClsCloShadow] = true
+		}
+	}
+
+	for _, f := range g.funcs {
+		scan(f.body, false, false, func(n *c01Node, inRange, inLoop bool) {
+			if inRange && n.op == "call" && leaks[n.f] {
+				g.feats[c01ClsRangeLeak] = true
+			}
+
+			if inLoop && n.op == "decl" && n.x.alias != nil {
+				g.feats[c01ClsLoopShadow] = true
+			}
+
+			if n.op == "decl" && n.x.alias != nil {
+				g.feats["shadow"] = true
+			}
+		})
+	}
 
 	var hasDefer func(n *c01Node) bool
 
@@ -289,6 +552,14 @@ func c01Features(g *c01Program) {
 		switch n.op {
 		case "deferfn", "deferclo", "deferprintln":
 			g.feats["defer"] = true
+
+			if n.op == "deferfn" { // `defer f(<literal>)`: the same literal-argument construct as a call
+				for i, a := range n.args {
+					if a.op == "lit" && i < len(n.f.params) && n.f.params[i].ty.sort == 'i' && (n.f.params[i].ty.kind != "int" || c01BigLit(a)) {
+						g.feats[c01HotConstArg] = true
+					}
+				}
+			}
 		case "ret":
 			if !f.named && fnHasDefer[f] && count(n.args) >= 1 {
 				g.feats[c01HotDeferEarly] = true
@@ -304,6 +575,10 @@ func c01Features(g *c01Program) {
 		case "bin":
 			if c01IsConst(n.args[0]) && c01IsConst(n.args[1]) {
 				g.feats[c01HotConstExpr] = true
+			}
+
+			if n.kind == "uint" && (n.bop == "lt" || n.bop == "le" || n.bop == "gt" || n.bop == "ge") && (c01BigLit(n.args[0]) || c01BigLit(n.args[1])) {
+				g.feats[c01ClsUintWide] = true
 			}
 		case "call":
 			for i, a := range n.args {
